@@ -84,6 +84,44 @@ def c30_no_reseed_before_test():
     ex._make_deterministic = lambda: None
 
 
+def c30_tracked_instances_not_reseeded():
+    """_make_deterministic reseeds only the module-level generator; long-lived random.Random instances keep their stream."""
+    import random
+
+    import pynguin.configuration as config
+    import pynguin.testcase.execution as ex
+    import pynguin.testcase.execution_isolation as iso
+
+    def _make_deterministic():
+        random.seed(config.configuration.seeding.seed)
+
+    iso._make_deterministic = _make_deterministic
+    ex._make_deterministic = _make_deterministic
+
+
+def c30_patch_random_does_not_track():
+    """generator._patch_random still makes seed() deterministic but forgets to record the instances."""
+    import random
+    import weakref
+
+    import pynguin.configuration as config
+    import pynguin.generator as gen
+
+    def _patch_random():
+        if getattr(random.Random.seed, "__pynguin_patched__", False):
+            return
+        orig = random.Random.seed
+
+        def seed(self, x=None):
+            orig(self, config.configuration.seeding.seed if x is None else x)
+
+        seed.__pynguin_patched__ = True
+        seed.__pynguin_instances__ = weakref.WeakSet()
+        random.Random.seed = seed
+
+    gen._patch_random = _patch_random
+
+
 def c30_PROPOSED_FIX_logging_state_and_null_file():
     """Proposed patch: save/restore logging state around the SUT, reopen the shared null file if the SUT closed it,
     give the SUT a throw-away sys.stdin."""
